@@ -47,7 +47,9 @@ def main():
         if not os.path.isdir(wt):
             sh(f"git -C /repo worktree add -q --detach {wt} HEAD")
         pool.put(wt)
-    cjs = [cj for root in sys.argv[1:] for cj in sorted(glob.glob(root + "/C*/[0-9]/confirm.json"))]
+    import re
+    filt = re.compile(os.environ.get("REDEMO_FILTER", "."))
+    cjs = [cj for root in sys.argv[1:] for cj in sorted(glob.glob(root + "/C*/[0-9]/confirm.json")) if filt.search(cj)]
     with cf.ThreadPoolExecutor(N) as ex:
         for d, r in ex.map(one, cjs):
             if r != "skip":
